@@ -107,6 +107,7 @@ def obsEq (ts : List Int) (a b : St) : Bool :=
 
 def evOps (isDenomIn : Bool) : CL.SwapEv → List Op
   | .fee f => if isDenomIn then [.fee f] else []
+  | .step _ _ _ => []
   | .cross true t => [.crossUp t]
   | .cross false t => [.crossDown t]
   | .move t => [.moveWithin t]
